@@ -1897,7 +1897,21 @@ def rule_X6(F, R, parts=('coverage', 'labels')):
                     cov.setdefault(variant, set()).update(i for i, v in b.items() if v in seen)
             break
         return cov
-    is_rec_call = lambda e: e['k'] == 'Call' and callee_name(e) == T + 'nodes_recursive'
+    # the walker proper: nodes_recursive itself, or the new private helper it hands the work to (an accumulator walker
+    # `collect_nodes(root, &mut nodes)`): the function that matches on the syntax node and calls itself on the children
+    walker = T + 'nodes_recursive'
+    def has_variant_match(t_): return any(m_['k'] == 'Match' and any(arm_variant_bindings(a_) for a_ in m_['arms']) for m_ in walk(t_['body']))
+    if not has_variant_match(tn):
+        todo = [tn]; seen_w = set()
+        while todo:
+            cur = todo.pop()
+            for x in walk(cur['body']):
+                g = callee_name(x) if x['k'] == 'Call' else None
+                if g and g in lib.ithir and g not in seen_w and g not in _facts.baseline_fns() and '{closure' not in g:
+                    seen_w.add(g)
+                    if has_variant_match(lib.ithir[g]): walker = g; tn = lib.ithir[g]; todo = []; break
+                    todo.append(lib.ithir[g])
+    is_rec_call = lambda e: e['k'] == 'Call' and callee_name(e) == walker
     def is_edge_push(e):
         if not (e['k'] == 'Call' and callee_name(e) == 'std::vec::Vec::push'): return False
         return any(x['k'] == 'Call' and callee_decl(x) == 'std::iter::Iterator::position' for x in walk(e))
